@@ -84,17 +84,16 @@ def tlc(module, cfg, wd, workers=None, timeout=900, extra=None, env=None, simula
 
 
 def tlc_printed(out, tag):
-    """Extract JSON payloads printed by PrintT(<<"TAG", ToJson(x)>>) -> list of python objects."""
+    """Extract JSON payloads printed by PrintT(<<"TAG", ToJson(x)>>) -> list of python objects.
+    TLC may pretty-print a long tuple over several lines (<< "TAG",\n   "..." >>): any white space is tolerated."""
     res = []
-    pat = re.compile(r'^<<"%s", "(.*)">>$' % re.escape(tag))
-    for line in out.splitlines():
-        m = pat.match(line.strip())
-        if m:
-            s = m.group(1).replace('\\"', '"').replace("\\\\", "\\")
-            try:
-                res.append(json.loads(s))
-            except Exception as e:
-                raise ToolError("cannot parse TLC-printed JSON: %s: %s" % (e, s[:200]))
+    pat = re.compile(r'<<\s*"%s",\s*"((?:[^"\\]|\\.)*)"\s*>>' % re.escape(tag))
+    for m in pat.finditer(out):
+        s = m.group(1).replace('\\"', '"').replace("\\\\", "\\")
+        try:
+            res.append(json.loads(s))
+        except Exception as e:
+            raise ToolError("cannot parse TLC-printed JSON: %s: %s" % (e, s[:200]))
     return res
 
 
@@ -113,7 +112,8 @@ def tlc_trace(module, cfg, tracefile, wd, timeout=900, env=None, heap="4g"):
     rc, out, dt = sh(cmd, cwd=SPEC, env=e, timeout=timeout)
     shutil.rmtree(meta, ignore_errors=True)
     viols = []
-    for m in re.finditer(r'^<<"VIOL", (-?\d+), "([^"]*)", (\d+)>>', out, re.M):
+    # TLC pretty-prints a tuple longer than its line width over several lines: the pattern tolerates any white space
+    for m in re.finditer(r'<<\s*"VIOL",\s*(-?\d+),\s*"([^"]*)",\s*(\d+)\s*>>', out):
         viols.append((int(m.group(1)), m.group(2), int(m.group(3))))
     m = re.search(r'<<"CONSUMED", (\d+), (\d+)>>', out)
     consumed, total = (int(m.group(1)), int(m.group(2))) if m else (-1, -1)
